@@ -145,15 +145,27 @@ class Interp:
                     return ('i', self.count)
                 if n == 'on_edge':
                     return ('b', self.on_edge)
+            if len(pr) == 3 and pr[1]['k'] == 'field' and pr[2]['k'] == 'field' and pr[2]['n'] in ('x', 'y') and pr[1]['n'] not in ('first_point', 'current_point') \
+                    and 'Point2D' in (pr[2].get('adt') or ''):
+                # the query point kept as one point-valued field (that it is (x, y) is R17.5's clause)
+                return self.atom('X' if pr[2]['n'] == 'x' else 'Y')
             raise NotAnalysable('read of %s' % pr)
-        if l in (2, 3) and len(pr) == 1 and pr[0]['k'] == 'field' and pr[0]['n'] in ('x', 'y'):
-            return self.atom(pr[0]['n'] + ('1' if l == 2 else '2'))
-        if l not in self.env:
+        if l in (2, 3) and l not in self.env:
+            v = ('pt', '1' if l == 2 else '2')      # the end points, as values that can be handed on
+        elif l not in self.env:
             raise NotAnalysable('read of undefined local _%d' % l)
-        v = self.env[l]
+        else:
+            v = self.env[l]
         for e in pr:
             if e['k'] == 'field' and v[0] == 't':
                 v = v[1][int(e['n'])]
+            elif e['k'] == 'field' and v[0] == 'pt' and e['n'] in ('x', 'y'):
+                v = self.atom(e['n'] + v[1])
+            elif e['k'] == 'downcast' and v[0] == 'e':
+                if v[1] != e.get('v'):
+                    raise NotAnalysable('downcast to %s of a %s' % (e.get('v'), v[1]))
+            elif e['k'] == 'field' and v[0] == 'e':
+                v = v[2][int(e.get('i', e['n']))]
             else:
                 raise NotAnalysable('projection %s on %s' % (e['k'], v[0]))
         return v
@@ -230,6 +242,22 @@ class Interp:
             return self.operand(rv['o'])
         if k == 'agg' and rv['ak'] == 'tuple':
             return ('t', [self.operand(o) for o in rv['ops']])
+        if k == 'agg' and rv['ak'] == 'adt' and rv.get('v') is not None:
+            # a value of a local enum (e.g. the classification of one edge returned by an extracted helper)
+            return ('e', rv['v'], [self.operand(o) for o in rv['ops']], rv.get('adt'))
+        if k == 'discr':
+            v = self.place(rv['p'])
+            if v[0] == 'e':
+                a = self.b.facts.adts.get(v[3]) if getattr(self.b, 'facts', None) is not None else None
+                idx = None
+                if a is not None:
+                    for var in a.get('variants', []):
+                        if var['name'] == v[1]:
+                            idx = var.get('idx')
+                if idx is None:
+                    raise NotAnalysable('discriminant of %s::%s' % (v[3], v[1]))
+                return ('i', idx)
+            raise NotAnalysable('discriminant of %s' % v[0])
         if k == 'binop':
             a, b = self.operand(rv['a']), self.operand(rv['b'])
             op = rv['op']
